@@ -205,4 +205,54 @@ Proof.
     + subst i. rewrite Hnth. cbn [fst snd andb]. reflexivity.
     + cbn [andb]. unfold ind. ring.
 Qed.
+(* C12.3b: Ulam 3-D: the entry at ((x1,x2,x3),(y1,y2,y3)) (before transposition and 1/N scaling) is the number of recorded
+   transitions (x1,x2,x3) -> (y1,y2,y3) *)
+Theorem ulam3_counts s1 s2 s3 (ts : list trans3) uniq1 inv1 uniq2 inv2 x1 x2 x3 y1 y2 y3 :
+  (forall t, (t < length ts)%nat ->
+      (nth t inv1 0%nat < length uniq1)%nat /\ (nth t inv2 0%nat < length uniq2)%nat /\
+      nth (nth t inv1 0%nat) uniq1 (0, 0)%nat = (let '(a, _, _, d, _, _) := nth t ts t3d in (a, d)) /\
+      nth (nth t inv2 0%nat) uniq2 (0, 0)%nat = (let '(_, _, c, _, _, f) := nth t ts t3d in (c, f))) ->
+  elem (@ulam3_cores R s1 s2 s3 ts uniq1 inv1 uniq2 inv2) [x1; x2; x3] [y1; y2; y3] =
+  count_if (length ts) (fun t => let '(a, b, c, d, e, f) := nth t ts t3d in
+                                 Nat.eqb a x1 && Nat.eqb b x2 && Nat.eqb c x3 && Nat.eqb d y1 && Nat.eqb e y2 && Nat.eqb f y3).
+Proof.
+  intros Hu. unfold elem, ulam3_cores. cbn [chain]. unfold mmul at 1. cbn [rr].
+  set (r1 := length uniq1). set (r2 := length uniq2).
+  rewrite (sum_ext r1 _ (fun i => sum r2 (fun j =>
+      @ind R (Nat.eqb x1 (fst (nth i uniq1 (0, 0)%nat)) && Nat.eqb y1 (snd (nth i uniq1 (0, 0)%nat))) *
+      (count_if (length ts) (fun t => let '(_, b, _, _, e, _) := nth t ts t3d in
+                                     Nat.eqb (nth t inv1 0%nat) i && Nat.eqb b x2 && Nat.eqb e y2 && Nat.eqb (nth t inv2 0%nat) j) *
+       @ind R (Nat.eqb x3 (fst (nth j uniq2 (0, 0)%nat)) && Nat.eqb y3 (snd (nth j uniq2 (0, 0)%nat))))))).
+  2:{ intros i Hi. unfold cmat at 1. cbn [g]. unfold mmul at 1. rewrite <- (sum_scal_l r2).
+      apply sum_ext; intros j Hj. f_equal. f_equal. unfold mmul. simpl sum. unfold cmat, delta. cbn [g]. simpl. ring. }
+  unfold count_if.
+  transitivity (sum (length ts) (fun t => sum r1 (fun i => sum r2 (fun j =>
+      @ind R (Nat.eqb x1 (fst (nth i uniq1 (0, 0)%nat)) && Nat.eqb y1 (snd (nth i uniq1 (0, 0)%nat))) *
+      (@ind R (let '(_, b, _, _, e, _) := nth t ts t3d in
+            Nat.eqb (nth t inv1 0%nat) i && Nat.eqb b x2 && Nat.eqb e y2 && Nat.eqb (nth t inv2 0%nat) j) *
+       @ind R (Nat.eqb x3 (fst (nth j uniq2 (0, 0)%nat)) && Nat.eqb y3 (snd (nth j uniq2 (0, 0)%nat)))))))).
+  { erewrite (sum_ext r1); cycle 1.
+    { intros i _. erewrite (sum_ext r2); cycle 1.
+      { intros j _. rewrite <- (sum_scal_r (length ts)), <- (sum_scal_l (length ts)). reflexivity. }
+      rewrite (sum_swap r2 (length ts)). reflexivity. }
+    rewrite (sum_swap r1 (length ts)). reflexivity. }
+  apply sum_ext; intros t Ht.
+  destruct (Hu t Ht) as (Hl1 & Hl2 & Hn1 & Hn2).
+  destruct (nth t ts t3d) as [[[[[a b] c] d] e] f] eqn:Et.
+  rewrite (sum_ext r1 _ (fun i => if Nat.eqb i (nth t inv1 0%nat) then
+       @ind R (Nat.eqb x1 a && Nat.eqb y1 d) * (@ind R (Nat.eqb b x2 && Nat.eqb e y2) * @ind R (Nat.eqb x3 c && Nat.eqb y3 f)) else 0)).
+  - rewrite (sum_single r1 (nth t inv1 0%nat) (fun _ => @ind R (Nat.eqb x1 a && Nat.eqb y1 d) * (@ind R (Nat.eqb b x2 && Nat.eqb e y2) * @ind R (Nat.eqb x3 c && Nat.eqb y3 f)))) by exact Hl1.
+    unfold ind. rewrite (Nat.eqb_sym x1 a), (Nat.eqb_sym y1 d), (Nat.eqb_sym x3 c), (Nat.eqb_sym y3 f).
+    destruct (Nat.eqb a x1), (Nat.eqb b x2), (Nat.eqb c x3), (Nat.eqb d y1), (Nat.eqb e y2), (Nat.eqb f y3); cbn [andb]; ring.
+  - intros i Hi. rewrite (Nat.eqb_sym i). destruct (Nat.eqb_spec (nth t inv1 0%nat) i) as [E|E].
+    + subst i. rewrite Hn1. cbn [fst snd].
+      rewrite (sum_ext r2 _ (fun j => if Nat.eqb j (nth t inv2 0%nat) then
+          @ind R (Nat.eqb x1 a && Nat.eqb y1 d) * (@ind R (Nat.eqb b x2 && Nat.eqb e y2) * @ind R (Nat.eqb x3 c && Nat.eqb y3 f)) else 0)).
+      * apply (sum_single r2 (nth t inv2 0%nat) (fun _ => @ind R (Nat.eqb x1 a && Nat.eqb y1 d) * (@ind R (Nat.eqb b x2 && Nat.eqb e y2) * @ind R (Nat.eqb x3 c && Nat.eqb y3 f)))). exact Hl2.
+      * intros j Hj. rewrite (Nat.eqb_sym j). destruct (Nat.eqb_spec (nth t inv2 0%nat) j) as [E2|E2].
+        -- subst j. rewrite Hn2. cbn [fst snd]. cbn [andb].
+           unfold ind. destruct (Nat.eqb b x2), (Nat.eqb e y2); cbn [andb]; ring.
+        -- unfold ind. destruct (Nat.eqb b x2), (Nat.eqb e y2); cbn [andb]; ring.
+    + apply sum_zero'. intros j _. unfold ind. cbn [andb]. ring.
+Qed.
 End SlimProof.
